@@ -44,6 +44,12 @@ PROPS["C10"] = {
     "not_covered": ["outstation::database::details::range::static_db::write_typed_range (BTreeMap order: std, trusted)", "master::extract::extract_measurements_inner fold over headers (dispatcher does not finish in CBMC)"],
 }
 
+PROPS["C09"] = {
+    "level_text": "Proof by contract per leaf of the application-layer object codec: every fixed-size object's write/read is a bijection of exactly the Annex A size (98 impls, generated list), group/variation, qualifier and function-code codecs are mutually inverse, every sequence parser consumes exactly the bytes its count/range implies or fails, every iterator yields exactly count items with the declared indices (including ranges ending at 65535), and each dispatcher arm with the variation fixed delegates to the right leaf.",
+    "level_note": "Not covered: the composition of these leaves - ObjectParser's two-pass loop and qualifier dispatch, free-format and attribute objects, the HeaderWriter/PrefixWriter/RangeWriter encoders and master request builders, function/flags/IIN framing - so 'a whole encoded fragment decodes to the same fragment' rests on about 20 lines of glue that are read, not proved. Cursor-based iterators over windows of <= 4 objects (bounded). Enum invariants (canonical CommandStatus/ControlCode values) assumed and tagged.",
+    "not_covered": ["app::parse::parser::ObjectParser::parse two-pass loop / parse_one_inner qualifier dispatch (does not finish in CBMC)", "app::format::write::HeaderWriter family, master::request builders", "app::attr attribute objects"],
+}
+
 NA = {
     "C02": "whole-system history over real TCP and three threads: no function contract within reach expresses it (Kani has no threads, tokio I/O crashes the Kani compiler); its ingredients are decided under C03/C06/C08/C09/C10/C13",
     "C14": "every rule is control flow inside async fns that hold the physical layer (check_unsolicited, perform_unsolicited_response_series, wait_for_unsolicited_confirm, handle_deferred_read): outside both verifiers",
